@@ -34,7 +34,7 @@ def FLOORS(tier):
     q = tier == "quick"
     f = {"immutability-checks": 20000 if q else 10 ** 6, "monitored-entry-points-hit": 70, "round-trips": 300 if q else 10000,
          "aliasing-probes": 2500 if q else 10 ** 5, "round-trip:with-constraints": 40, "round-trip:permuted-mapping": 40,
-         "round-trip:stale-mapping": 40, "round-trip:named": 60, "round-trip:falsy-name": 25,
+         "round-trip:stale-mapping": 40, "round-trip:named": 60, "round-trip:falsy-name": 25, "round-trip:info-without-optional-entries": 60, "retained:operand-with-constraints": 8,
          "zero-entry-dict-calls": 100, "retained:add_constraint_eq_zero": 30, "retained-arg:PUBO": 15, "retained-arg:dict": 15}
     for u in UNDER:
         f["under:" + u] = 30 if q else 1000
@@ -286,6 +286,17 @@ def round_trip(ctx, rng):
             if set(mp_.values()) != set(range(len(mp_))) or len(mp_) != n0 + 1 or {v: k for k, v in mp_.items()} != c2.reverse_mapping:
                 ctx.violation("round-trip:copy-does-not-grow-consistently", "after adding a new label to the rebuilt model: mapping %r, reverse_mapping %r" % (mp_, c2.reverse_mapping), w)
                 return
+    if rng.random() < 0.3:
+        # a hand-written / deserialised info may leave optional entries out; create_from_info reads it, no more (the deep-snapshot
+        # monitor on utils.create_from_info compares the dict before and after)
+        slim = {k_: v_ for k_, v_ in info.items() if k_ not in (("name",) if info.get("name") is None else ()) + (("num_ancillas",) if not info.get("num_ancillas") else ())}
+        slim0 = snap(slim)
+        keys0 = list(slim)
+        ok, c3 = ctx.call("create_from_info", L.utils.create_from_info, slim, _w=w)
+        ctx.cat("round-trip:info-without-optional-entries")
+        if ok and (snap(slim) != slim0 or list(slim) != keys0):
+            ctx.violation("argument-mutated:create_from_info:info", "create_from_info changed the info dict it was given: keys %r -> %r" % (keys0, list(slim)), w)
+            return
     # the info dict must not alias the model
     info["terms"][("zz",) if not tn.endswith("Matrix") else (99,)] = 5
     if "mapping" in info and isinstance(info["mapping"], dict):
@@ -325,8 +336,15 @@ def retained_arguments(ctx, rng):
     w = {"class": type(H).__name__, "argument_type": argT, "argument": dict(P), "operation": how}
     ctx.cat("retained:" + how)
     ctx.cat("retained-arg:" + argT)
+    P_state = None
     with warnings.catch_warnings():
         warnings.simplefilter("ignore")
+        if argT in ("PCBO", "PCSO") and how in ("iadd", "update"):
+            # the operand is a constrained model itself: what it records stays its own
+            P.add_constraint_eq_zero({(labs[0],): 1, (): (0 if kind == "bool" else 1)}, lam=0)
+            P.add_constraint_le_zero({(labs[-1],): 1, (): -1}, lam=0)
+            P_state = public_state(P)
+            ctx.cat("retained:operand-with-constraints")
         try:
             if how.startswith("add_constraint"):
                 getattr(H, how)(P, lam=rng.choice([1, 2]))
@@ -340,6 +358,17 @@ def retained_arguments(ctx, rng):
                 H = type(H)(P)
         except Exception as e:   # noqa
             ctx.violation("retained:%s:raises-%s" % (how, type(e).__name__), "%r" % (e,), w)
+            return
+    if P_state is not None:
+        with warnings.catch_warnings():
+            warnings.simplefilter("ignore")
+            H.add_constraint_eq_zero({(labs[-1],): 1, (): (-1 if kind == "bool" else 1)}, lam=0)
+            H.add_constraint_le_zero({(labs[0],): 1, (): -2}, lam=0)
+            H.add_constraint_ne_zero({(labs[0],): 1, (): -3}, lam=0)
+        ctx.count("aliasing-probes")
+        if public_state(P) != P_state:
+            ctx.violation("%s:operand-follows-the-receiver" % how, "constraints recorded on the receiver afterwards show up in the operand model: %r -> %r" % (
+                P_state.get("constraints"), public_state(P).get("constraints")), w)
             return
     before = public_state(H)
     info = L.utils.get_info(H)
